@@ -436,6 +436,23 @@ def cases(ctx):
             dftc[-1][0] = "%02X" % ((df << 3) | rng.randrange(8)) + dftc[-1][0][2:]
     work += chunks("df", [[f] for f in fr[:3000]] + dftc)
     work += chunks("typecode", [[f] for f in fr[:2000]] + dftc)
+    # frames with structure in the DIVISION: leading zero bytes, a valid short code word followed by 00 and more data (the running
+    # remainder is zero at a byte boundary while data still follows), one-hot frames, zero / FF tails
+    sfr = []
+    for _ in range(60 * N):
+        n_ = rng.choice((56, 112, 112))
+        kz = rng.randrange(1, n_ // 8 - 1)
+        sfr.append("%0*X" % (n_ // 4, rng.getrandbits(n_ - 8 * kz)))
+        sfr.append("%0*X" % (n_ // 4, 1 << rng.randrange(n_)))
+        cw = bits.with_pi(rng.getrandbits(8 * rng.randrange(1, 5)) << 0, 8 * rng.randrange(4, 9), 0)
+    for kb in range(4, 11):
+        for _ in range(8 * N):
+            cw = bits.with_pi(rng.getrandbits(8 * kb - 24), 8 * kb, 0)          # kb bytes that divide evenly
+            rest = 112 - 8 * kb - 8
+            sfr.append("%028X" % ((cw << (rest + 8)) | rng.getrandbits(rest)))  # ... then 00, then more data
+            sfr.append("%028X" % ((cw << (rest + 8)) | (rng.getrandbits(rest) | 1)))
+    work += chunks("crc", [[f, e] for f in sfr for e in (False, True)])
+    work += chunks("icao", [[f] for f in sfr])
     work += chunks("crc", [[f, e] for f in fr for e in (False, True)][: 8000 * N])
     work += chunks("icao", [[f] for f in fr])
     work += chunks("data", [[f] for f in fr[:2000]])
